@@ -38,6 +38,10 @@ pub fn read_monitor(w: &World, node: usize, bytes: &[u8]) -> Result<ChannelMonit
 
 /// Reads a manager from bytes with freshly read monitors; returns its re-encoding.
 pub fn reencode_manager(w: &World, node: usize, bytes: &[u8]) -> Result<Vec<u8>, String> {
+	with_reread_manager(w, node, bytes, |m| m.encode())
+}
+
+pub fn with_reread_manager<R>(w: &World, node: usize, bytes: &[u8], f: impl FnOnce(&crate::node::CM) -> R) -> Result<R, String> {
 	let n = &w.nodes[node];
 	let mut monitors = Vec::new();
 	for cid in n.mon.list_monitors() {
@@ -79,7 +83,7 @@ pub fn reencode_manager(w: &World, node: usize, bytes: &[u8]) -> Result<Vec<u8>,
 		channel_monitors: refs,
 	};
 	let m = <(BlockLocator, crate::node::CM)>::read(&mut &bytes[..], args).map_err(|e| format!("{:?}", e))?.1;
-	Ok(m.encode())
+	Ok(f(&m))
 }
 
 impl SerdeOracle {
@@ -103,6 +107,12 @@ impl Oracle for SerdeOracle {
 	fn observe(&mut self, w: &World, obs: &[Obs]) -> Result<(), Failure> {
 		self.steps += 1;
 		for o in obs {
+			if let Obs::Restarted { node, .. } = o {
+				let keys: Vec<(usize, ChannelId)> = self.last.keys().filter(|k| k.0 == *node).cloned().collect();
+				for k in keys {
+					self.last.remove(&k);
+				}
+			}
 			if let Obs::Persist { node, rec } = o {
 				// the snapshot written by this Persist call
 				let snap = {
@@ -115,10 +125,29 @@ impl Oracle for SerdeOracle {
 				};
 				// (a) monitor round trip: read, compare with `==`, re-encode byte-identically
 				let m1 = read_monitor(w, *node, &snap).map_err(|e| fail(format!("monitor written by node {} does not read back: {}", node, e)))?;
-				let re = m1.encode();
-				if re != *snap {
-					return Err(fail(format!("monitor of node {} re-encodes differently after a round trip ({} vs {} bytes)", node, re.len(), snap.len())));
+				// compare with the live monitor it was written from, when that monitor has not moved on since
+				let restarted_here = obs.iter().any(|x| matches!(x, Obs::Restarted { node: n, .. } if n == node));
+				if let (false, Ok(live)) = (restarted_here, w.nodes[*node].mon.get_monitor(rec.chan)) {
+					if live.get_latest_update_id() == m1.get_latest_update_id() && live.current_best_block() == m1.current_best_block() {
+						if *live != m1 {
+							let fields = live.verif_diff_fields(&m1);
+							// events handed to the manager (or the user) after the write are not a round-trip matter
+							let drained_only = fields.iter().all(|f| matches!(*f, "pending_monitor_events" | "pending_events" | "is_processing_pending_events"));
+							if drained_only {
+								crate::runner::witness("c12-live-monitor-moved-on-after-write");
+								self.last.insert((*node, rec.chan), snap);
+								continue;
+							}
+							return Err(Failure::new(
+								"monitor-roundtrip-not-equal",
+								format!("fields={:?}: monitor of node {} read back from its serialisation is != the monitor it was written from", fields, node),
+							));
+						}
+						crate::runner::witness("c12-monitor-equals-live-after-roundtrip");
+					}
 				}
+				// a second round trip is a fixed point under `==`
+				let re = m1.encode();
 				let m2 = read_monitor(w, *node, &re).map_err(|e| fail(e))?;
 				if m1 != m2 {
 					return Err(fail("monitor != itself after a second round trip".into()));
@@ -130,20 +159,36 @@ impl Oracle for SerdeOracle {
 				if let (Some(ub), Some(prev)) = (&rec.update_bytes, self.last.get(&(*node, rec.chan))) {
 					let u: ChannelMonitorUpdate =
 						Readable::read(&mut &ub[..]).map_err(|e| fail(format!("ChannelMonitorUpdate does not read back: {:?}", e)))?;
-					if u.encode() != *ub {
-						return Err(fail("ChannelMonitorUpdate re-encodes differently".into()));
+					let u2: ChannelMonitorUpdate = Readable::read(&mut &u.encode()[..]).map_err(|e| fail(format!("{:?}", e)))?;
+					if u != u2 {
+						return Err(fail("ChannelMonitorUpdate != itself after a round trip".into()));
 					}
 					let before = read_monitor(w, *node, prev).map_err(|e| fail(e))?;
+					if before.current_best_block() != m1.current_best_block() || before.get_latest_update_id() + 1 != u.update_id {
+						// chain data arrived in between without a write: the previous snapshot is not the state
+						// the update was applied to
+						self.last.insert((*node, rec.chan), snap);
+						continue;
+					}
 					let n = &w.nodes[*node];
 					let sink = crate::base::McBroadcaster::new();
 					let applied = before.update_monitor(&u, &&sink, &&*n.fee, &&*n.logger);
 					// post-close updates may legitimately return Err while still being applied; compare states anyway
 					let _ = applied;
 					if before != m1 {
-						return Err(fail(format!(
-							"applying update {} to the previously persisted monitor after a round trip does not give the monitor that was persisted",
-							u.update_id
-						)));
+						let fields = before.verif_diff_fields(&m1);
+						if fields.iter().all(|f| matches!(*f, "pending_monitor_events" | "pending_events" | "is_processing_pending_events")) {
+							// the live monitor's events were handed over between the two writes
+							self.last.insert((*node, rec.chan), snap);
+							continue;
+						}
+						return Err(Failure::new(
+							"update-apply-after-roundtrip-differs",
+							format!(
+								"fields={:?}: applying update {} to the previously persisted monitor after a round trip does not give the monitor that was persisted",
+								fields, u.update_id
+							),
+						));
 					}
 					self.updates_checked += 1;
 					crate::runner::witness("c12-update-roundtrip-and-apply");
@@ -156,16 +201,12 @@ impl Oracle for SerdeOracle {
 		if self.steps % self.manager_every == 0 {
 			for i in 0..w.nodes.len() {
 				let bytes = w.nodes[i].cm.encode();
-				let re = reencode_manager(w, i, &bytes).map_err(|e| fail(format!("manager of node {} does not read back: {}", i, e)))?;
-				if re != bytes {
-					// find first difference for the report
-					let pos = bytes.iter().zip(re.iter()).position(|(a, b)| a != b).unwrap_or(bytes.len().min(re.len()));
+				let view = manager_view(w, i, &bytes).map_err(|e| fail(format!("manager of node {} does not read back: {}", i, e)))?;
+				let live = live_view(w, i);
+				if view != live {
 					return Err(fail(format!(
-						"manager of node {} re-encodes differently after a round trip ({} vs {} bytes, first difference at offset {})",
-						i,
-						bytes.len(),
-						re.len(),
-						pos
+						"manager of node {} read back from its serialisation differs observably: live {:?} re-read {:?}",
+						i, live, view
 					)));
 				}
 				self.managers_checked += 1;
@@ -175,4 +216,35 @@ impl Oracle for SerdeOracle {
 		}
 		Ok(())
 	}
+}
+
+/// Externally observable state that must survive a manager round trip even though writing implies
+/// a peer disconnection: the set of channels with their funding, value and counterparty, and the
+/// recent-payments list.
+pub fn view_of(cm: &crate::node::CM) -> Vec<String> {
+	let mut v: Vec<String> = cm
+		.list_channels()
+		.iter()
+		.map(|c| format!("chan {} {:?} {} {} ready={}", c.channel_id, c.funding_txo.map(|o| (o.txid, o.index)), c.channel_value_satoshis, c.counterparty.node_id, c.is_channel_ready))
+		.collect();
+	v.sort();
+	let mut p: Vec<String> = cm
+		.list_recent_payments()
+		.iter()
+		.map(|r| {
+			let s = format!("{:?}", r);
+			s.split(|c: char| c == ' ' || c == '{').next().unwrap_or("").to_string() + &format!("{:?}", r).matches("payment_id").count().to_string()
+		})
+		.collect();
+	p.sort();
+	v.extend(p);
+	v
+}
+
+pub fn live_view(w: &World, node: usize) -> Vec<String> {
+	view_of(&w.nodes[node].cm)
+}
+
+pub fn manager_view(w: &World, node: usize, bytes: &[u8]) -> Result<Vec<String>, String> {
+	with_reread_manager(w, node, bytes, |m| view_of(m))
 }
